@@ -57,7 +57,7 @@ func init() {
 		Stub: []string{"upstream DNS server (harness, scripted)", "kernel UDP/TCP (simnet)", "tfo-go (simtfo)", "clock (synctest)", "logger (no-op)"},
 		Assumptions: []string{
 			"the failure caching time is the 30 s stated in the doc comment of dns.rcodeFailureCachingDuration; a negative answer without SOA is not cacheable",
-			"where the responses of one lookup suggest different lifetimes the oracle only enforces the largest reading: minimum TTL over the address records of the result; for address-less results the larger of the negative (SOA TTL) / failure (30 s) times and of the TTLs in a truncated UDP response to the same lookup; refetching early is never a violation",
+			"where the responses of one lookup suggest different lifetimes the oracle only enforces the largest reading: minimum TTL over the answer records (address records and the CNAMEs they hang on) of the responses the result was taken from; for address-less results the larger of the negative (SOA TTL) / failure (30 s) times and of the TTLs in a truncated UDP response to the same lookup; refetching early is never a violation",
 			"acceptable = from the configured server, id 4/6, QR=1, answer section parseable, not TC over UDP; RA=0, unknown rcodes, broken trailing sections and TC over TCP may or may not be accepted by a resolver (both readings pass); wrong source, foreign id, QR=0, unparsable answers and TC over UDP must never contribute",
 			"success is demanded only when every scripted UDP reaction of the lookup is a proper response and no datagram loss is configured, or when the first TCP connection answers every query properly; retries beyond that are not demanded",
 			"datagram corruption is not injected (DNS over UDP has no integrity protection, a flipped address bit is indistinguishable from an answer)",
@@ -966,7 +966,11 @@ func lifetime(i4, i6 *inst) (time.Duration, time.Duration, string) {
 	n4, f4 := neg(i4)
 	n6, f6 := neg(i6)
 	if len(ttls) > 0 {
-		lo := time.Duration(slices.Min(ttls)) * time.Second
+		// "the smallest TTL": every record of the answer sections the result was taken from counts,
+		// also those that carry no address (a CNAME the addresses hang on)
+		all := append(slices.Clone(ttls), i4.hdrTTLs...)
+		all = append(all, i6.hdrTTLs...)
+		lo := time.Duration(slices.Min(all)) * time.Second
 		least := lo
 		if len(i4.addrTTLs) == 0 {
 			least = min(least, n4)
